@@ -38,6 +38,8 @@ func main() {
 		os.Exit(cmdCheck(os.Args[2:]))
 	case "dumpssa":
 		cmdDump(os.Args[2:])
+	case "modset":
+		cmdModset(os.Args[2:])
 	default:
 		fmt.Fprintln(os.Stderr, "unknown command")
 		os.Exit(2)
@@ -196,6 +198,18 @@ func cmdCheck(args []string) int {
 		for _, o := range vc.obls {
 			if *only != "" && !strings.Contains(o.Name, *only) {
 				continue
+			}
+			// a clause tagged with property ids ("[C09,C08]") only counts for those properties
+			if o.Tag != "" && strings.HasPrefix(o.Tag, "C") {
+				mine := false
+				for _, p := range strings.Split(o.Tag, ",") {
+					if strings.TrimSpace(p) == *prop {
+						mine = true
+					}
+				}
+				if !mine {
+					continue
+				}
 			}
 			items = append(items, &solveItem{vc: vc, o: o, idx: len(items)})
 		}
